@@ -290,6 +290,19 @@ theorem sleep_idle (wt : K → K) (endTime : K) (w : World K) (d : K) (events : 
     exact ⟨h1, h2⟩
 
 /-- A step of the idle main thread emits nothing at all and stays idle. -/
+theorem mainStep_idle_bot (wt : K → K) (w : World K) (h : Idle w) : (w.mainStep wt).1.bot = w.bot := by
+  obtain ⟨hr, hs, hpc⟩ := h
+  rcases hpc with hp | hp | hp | hp | ⟨it, hp⟩
+  · unfold World.mainStep; simp only [hp]
+  · unfold World.mainStep; simp only [hp, hr, Bool.not_false, if_true]
+  · unfold World.mainStep; simp only [hp]
+    split <;> rfl
+  · unfold World.mainStep; simp only [hp]
+  · unfold World.mainStep; simp only [hp]
+    split
+    · split <;> rfl
+    · rfl
+
 theorem mainStep_idle (wt : K → K) (w : World K) (h : Idle w) :
     Idle (w.mainStep wt).1 ∧ (w.mainStep wt).1.obs = w.obs := by
   obtain ⟨hr, hs, hpc⟩ := h
